@@ -10,9 +10,9 @@ import (
 
 func init() {
 	register(&PropSpec{
-		ID: "C05",
+		ID:          "C05",
 		Explanation: "Structural necessary conditions for 'a lost transport is survived'. R1: the token source is asked inside connectWire before the dial on every (re)connect, the access token handed to the wire connection derives only from that call, and both the initial connect and the reconnect retry closure reach connectWire. R2: open, metadata and call requests of package iscp are issued only inside closures passed to the retry wrapper (*Conn).send, whose connection-closed branch loops back unless the connection is closed. R3: the downstream resume request carries Downstream.ID and Downstream.idAlias, which only the constructor stores. R4: in each stream's resume, every error return after the resume exchange has started is preceded by closeWithError. R5: the closed-connection sentinel of the status wait primitive is feasible. R6: each stream's watcher returns a non-nil error after observing Reconnecting, and the supervisor loop goes run → wait for Connected → resume → run.",
-		NotDecided: []string{"that streams actually resume (liveness)", "once-per-outage notifications", "back-to-back failures", "whether a level-triggered watcher can miss a very fast redial"},
+		NotDecided:  []string{"that streams actually resume (liveness)", "once-per-outage notifications", "back-to-back failures", "whether a level-triggered watcher can miss a very fast redial"},
 		Rules: func(r *Run) {
 			ruleC05R1(r)
 			ruleC05R2(r)
@@ -21,6 +21,7 @@ func init() {
 			ruleE1(r) // R5 (shared with C08)
 			ruleC05R6(r)
 			ruleErrorDiscipline(r, "R7")
+			ruleFailFastOnlyWhenClosed(r, "R8")
 		},
 	})
 }
@@ -450,6 +451,37 @@ func ruleC05R6(r *Run) {
 				}
 			}
 			r.Check(name+" supervises "+typ, ok, posOf(p, s), name, "run in a loop; on failure: WaitUntil(Connected) then resume then run again")
+			// the wire connection handed to resume is read after the wait returned, never before it (a value read before
+			// the wait is the connection that just died)
+			if waitC != nil && resumeC != nil {
+				for i, a := range instrCall(resumeC).Args[1:] {
+					var defs []ssa.Instruction
+					switch x := a.(type) {
+					case *ssa.UnOp:
+						if al, isAl := x.X.(*ssa.Alloc); isAl && x.Op == token.MUL && al.Referrers() != nil {
+							for _, ref := range *al.Referrers() {
+								if st, isSt := ref.(*ssa.Store); isSt && st.Addr == ssa.Value(al) {
+									defs = append(defs, st)
+								}
+							}
+						} else {
+							defs = append(defs, x)
+						}
+					case ssa.Instruction:
+						defs = append(defs, x)
+					}
+					if len(defs) == 0 {
+						continue
+					}
+					fresh := true
+					for _, d := range defs {
+						if d.Parent() == sup && !dominatesInstr(waitC, d) {
+							fresh = false
+						}
+					}
+					r.Check(fmt.Sprintf("%s resume argument #%d of %s is read after the wait", name, i+1, typ), fresh, posOf(p, resumeC), name, "the value passed to resume is computed at "+posOf(p, defs[0])+"; it must be computed after WaitUntil(Connected) returned, otherwise the stream resumes on the connection that was just lost")
+				}
+			}
 		}
 	}
 	_ = token.NoPos
